@@ -11,6 +11,7 @@ import GojaModel.C13.Lemmas
 import GojaModel.C13.BridgeLemmas
 import GojaModel.C13.ExportLemmas
 import GojaModel.C13.MapModel
+import GojaModel.C13.GatewayLemmas
 
 namespace GojaModel.C13
 
@@ -261,15 +262,79 @@ theorem exception_is_exact (sh : Shape) (h : Exception sh = true) : roundTrip sh
   | rOther d n => cases n <;> cases d <;> simp_all [Exception, roundTrip, toValueCase]
   | _ => simp_all [Exception, roundTrip, toValueCase]
 
-/-! ### map wrappers: live entries, element wrappers are copies -/
+/-! ### the call gateways -/
 
-theorem mstep_m_congr {s t : MSt} (h : s.m = t.m) (op : MOp) : (s.step op).m = (t.step op).m := by
-  cases op with
-  | get k =>
-    simp only [MSt.step, MSt.getKey]
-    rw [h]; cases t.m k <;> simp [h]
-  | wwrite w x => simp only [MSt.step]; split <;> split <;> simp [h]
-  | _ => simp [MSt.step, h]
+/-- wrapReflectFunc, ALL arities / argument counts: the `in` slice handed to reflect.Value.Call is written only inside
+    its bounds, every position holds exactly what the documentation promises (script argument j converted to the type
+    of parameter j, or to the element type of the variadic parameter; missing arguments are zero values of their
+    parameter type; extra arguments are dropped), no position is left invalid, and its length is one reflect.Call
+    accepts (= NumIn, or ≥ NumIn-1 for a variadic func). -/
+theorem gateway_call_args_total (nargs : Nat) (variadic : Bool) (l : Nat) :
+    let r := gatewayIn nargs variadic l
+    r.oob = false ∧
+    (∀ j, j < r.len → r.slot j = specSlot nargs variadic l j ∧ r.slot j ≠ .unset) ∧
+    (variadic = false → r.len = nargs) ∧ (variadic = true → nargs ≤ r.len + 1 ∧ (nargs ≤ l → r.len = l)) := by
+  intro r
+  have h := loopIn_inv nargs variadic l l 0 (initIn nargs variadic l) (by omega) rfl (by simp [initIn]; split <;> rfl)
+    (fun j hj => by omega) (fun j _ => rfl)
+  obtain ⟨hlen, hoob, hslots⟩ := h
+  have hL := initIn_len nargs variadic l
+  have hrl : r.len = (initIn nargs variadic l).len := hlen
+  refine ⟨hoob, ?_, ?_, ?_⟩
+  · intro j hj
+    have hsj : r.slot j = specSlot nargs variadic l j := hslots j (by rw [← hrl]; exact hj)
+    refine ⟨hsj, ?_⟩
+    rw [hsj]; unfold specSlot
+    split
+    · split <;> simp
+    · simp
+  · intro hv
+    rw [hrl, hL]
+    by_cases h1 : l < nargs
+    · simp [h1, hv]
+    · simp only [h1, if_false]
+      split
+      · rfl
+      · rename_i h2; simp [hv] at h2; omega
+  · intro hv
+    rw [hrl, hL]
+    by_cases h1 : l < nargs
+    · simp only [h1, hv, if_true]; omega
+    · simp only [h1, hv, if_false]
+      simp; omega
+
+/-- Results of a Go call as documented: nothing → undefined; a trailing non-nil `error` → exception; otherwise the
+    error is dropped and one remaining value is returned as is, several as an Array ("if there are exactly two
+    return values and the last is an error, the function returns the first value as is, not an Array"). -/
+theorem gateway_results_as_documented (nout : Nat) (lastIsErr errNonNil : Bool) :
+    gatewayOut nout lastIsErr errNonNil =
+      (if 0 < nout ∧ lastIsErr = true ∧ errNonNil = true then CallResult.throw
+       else match (if lastIsErr = true then nout - 1 else nout) with
+         | 0 => .undefined
+         | 1 => .value 0
+         | n => .array n) := by
+  unfold gatewayOut
+  cases lastIsErr <;> cases errNonNil <;> rcases nout with _ | _ | _ | n <;> simp
+
+/-- wrapJSFunc: the script function receives exactly the Go arguments, the variadic tail flattened, in order; an
+    exception or conversion failure is returned through a trailing `error` result if there is one and is a Go panic
+    otherwise (as documented for ExportTo into a func). -/
+theorem jsfunc_gateway (nfixed tail j : Nat) (variadic : Bool) (hj : j < jsArgCount nfixed variadic tail) :
+    (j < nfixed → jsArg nfixed j = .fixed j) ∧
+    (nfixed ≤ j → variadic = true ∧ ∃ k, k < tail ∧ jsArg nfixed j = .tailElem k ∧ j = nfixed + k) ∧
+    (∀ nout lastIsErr, jsFuncOutcome nout lastIsErr false false = .results (decide (0 < nout)) false) ∧
+    (∀ nout, jsFuncOutcome nout false true false = .goPanic) ∧
+    (∀ nout, 0 < nout → jsFuncOutcome nout true true false = .results false true) := by
+  refine ⟨fun h => by simp [jsArg, h], ?_, by intro n e; simp [jsFuncOutcome], by intro n; simp [jsFuncOutcome], ?_⟩
+  · intro h
+    cases variadic with
+    | false => simp [jsArgCount] at hj; omega
+    | true =>
+      simp [jsArgCount] at hj
+      exact ⟨rfl, j - nfixed, by omega, by simp [jsArg]; omega, by omega⟩
+  · intro n hn; simp [jsFuncOutcome, hn]
+
+/-! ### map wrappers: live entries, element wrappers are copies -/
 
 /-- MAP LIVE VIEW.  A script write to an entry is what Go sees, a Go write is what the next script read returns
     (the new wrapper holds the current element), a delete from either side removes the entry. -/
